@@ -4,10 +4,13 @@ import (
 	"encoding/hex"
 	"errors"
 	"math"
+	"strconv"
 	"strings"
 	"sync"
 
 	"github.com/robertkrimen/otto"
+	"github.com/robertkrimen/otto/ast"
+	"github.com/robertkrimen/otto/parser"
 	"ottoverif/h"
 )
 
@@ -121,8 +124,66 @@ func implC06(line string) string {
 		return numRes(c.fParseInt.Call(u, sval(f[1]), argVal(f[2])))
 	case "pfloat": // pfloat S
 		return numRes(c.fParseFloat.Call(u, sval(f[1])))
+	case "lit": // lit S
+		return litImpl(c, f[1])
+	case "istr": // istr I   (an int64-kinded number Value, as produced by integer literals, parseInt, Go ints)
+		n, err := strconv.ParseInt(f[1], 10, 64)
+		if err != nil {
+			panic(err)
+		}
+		return strRes(c.fString.Call(u, n))
+	case "rt": // rt X L
+		v, err := c.fString.Call(u, fval(f[1]))
+		if err != nil {
+			return errTok(err)
+		}
+		return numRes(c.fNumber.Call(u, v))
 	}
 	return "bad-op"
+}
+
+// litImpl: the program text must parse (public parser package) to exactly one expression statement
+// holding one NumberLiteral spanning the whole text; its value is then obtained by running the
+// program.  Anything else (syntax error, other program shape) is "other".
+func litImpl(c *vmCtx, tok string) string {
+	b, err := hex.DecodeString(strings.TrimPrefix(tok, "s:"))
+	if err != nil {
+		panic(err)
+	}
+	src := string(b)
+	prog, err := parser.ParseFile(nil, "", src, 0)
+	if err != nil || len(prog.Body) != 1 {
+		return "other"
+	}
+	es, ok := prog.Body[0].(*ast.ExpressionStatement)
+	if !ok {
+		return "other"
+	}
+	nl, ok := es.Expression.(*ast.NumberLiteral)
+	if !ok || nl.Literal != src {
+		return "other"
+	}
+	v, err := c.vm.Run(src)
+	if err != nil {
+		return errTok(err)
+	}
+	if !v.IsNumber() {
+		return "notnumber:" + h.ValTok(v)
+	}
+	f, _ := v.ToFloat()
+	var lf float64
+	switch x := nl.Value.(type) {
+	case int64:
+		lf = float64(x)
+	case float64:
+		lf = x
+	default:
+		return "badliteralvalue"
+	}
+	if h.F64Hex(lf) != h.F64Hex(f) {
+		return "ast-vs-run-mismatch:" + h.F64Hex(lf) + ":" + h.F64Hex(f)
+	}
+	return h.F64Hex(f)
 }
 
 func lg(x float64) string { return h.F64Hex(math.Log10(math.Abs(x))) }
